@@ -369,15 +369,16 @@ func cmdC06Replay(args []string) {
 		// the child died while replaying case last+1
 		crashes++
 		tail := stderr.String()
+		fatal := firstFatal(tail)
 		if len(tail) > 3000 {
 			tail = tail[len(tail)-3000:]
 		}
 		class := "c06/server-crash"
-		if strings.Contains(tail, "harness:") && !strings.Contains(tail, "fatal error") && !strings.Contains(tail, "panic") {
+		if strings.Contains(tail, "harness:") && fatal == "(no fatal error line)" {
 			hlib.Fatal("child failed on case %d: %s", last+1, tail)
 		}
 		res.Evaluations++
-		res.Fail(class, "the process died while replaying the case: "+firstFatal(tail), map[string]interface{}{"case": last + 1})
+		res.Fail(class, "the process died while replaying the case: "+fatal, map[string]interface{}{"case": last + 1})
 		start = last + 2
 		if crashes > 20 {
 			break
